@@ -67,6 +67,14 @@ def main(argv):
     return conclude(prop, tier, seed, mod, results, dead, time.time() - t0)
 
 
+def _sum_counts(results):
+    out = {}
+    for r in results:
+        for k, n in r.get('known_counts', {}).items():
+            out[k] = out.get(k, 0) + n
+    return out
+
+
 def conclude(prop, tier, seed, mod, results, dead, wall):
     evaluations = sum(r['evaluations'] for r in results)
     classes = {}
@@ -126,6 +134,7 @@ def conclude(prop, tier, seed, mod, results, dead, wall):
             'class_histogram_top': dict(sorted(classes.items(), key=lambda kv: -kv[1])[:25]),
             'monitors': monitors,
             'known_findings_hit': {k: len(v) for k, v in known_hits.items()},
+            'known_findings_witnesses': _sum_counts(results),
             'inconclusive': common.jsonable(inconclusive[:10]),
             'cross_property_m3_notes': m3_notes[:5],
             'harness_case_errors': case_errors,
@@ -145,9 +154,14 @@ def conclude(prop, tier, seed, mod, results, dead, wall):
         f.write('\n')
     os.replace(evp + '.tmp', evp)
 
+    known_counts = {}
+    for r in results:
+        for k, n in r.get('known_counts', {}).items():
+            known_counts[k] = known_counts.get(k, 0) + n
     for key in sorted(known_hits):
         print('KNOWN-FINDING: property=%s %s (%d witnesses this run)' % (prop, known.describe(prop, key),
-                                                                          len(known_hits[key])))
+                                                                          max(len(known_hits[key]),
+                                                                              known_counts.get(key, 0))))
     rdir = os.path.join(common.OUT_DIR, 'replay', prop)
     if os.path.isdir(rdir) and 'VERIF_KEEP_REPLAYS' not in os.environ:
         shutil.rmtree(rdir, ignore_errors=True)  # witnesses of earlier runs would only confuse
